@@ -365,9 +365,6 @@ theorem decH_union (p : String) (fs : BL) (types offs cur : List Int) :
     decH (.union p fs types offs cur) = List.zipWith (unionRowH (decHCols fs)) types offs := by
   simp only [decH]
 
-theorem unionRowH_eq (fs : BL) (t o : Int) :
-    unionRowH (decHCols fs) t o = ((colAtH fs t.toNat).getD o.toNat (some .null)).map (LVal.union t) := rfl
-
 theorem WFHU_get : ∀ (fs : BL) (cur : List Int) (i : Nat) (x : B × FieldMeta), WFHU fs cur → fs.get? i = some x →
     cur[i]? = some ((dec x.1).length : Int) ∧ WFH x.1
   | .nil, _, _, _, _, h => by simp [BL.get?] at h
